@@ -649,24 +649,33 @@ static void vbi_proxyd_forward_data( int dev_idx )
             }
          }
 
+         /* the buffer must be linked into the queue before the master thread
+         ** can see it through a client's p_sliced pointer and release it */
+         if (p_buf->ref_count > 0)
+            vbi_proxy_queue_add_tail(&p_proxy_dev->p_sliced, p_buf);
+         else
+            vbi_proxy_queue_add_free(p_proxy_dev, p_buf);
+
+         p_proxy_dev->p_tmp_buf = NULL;
+
          pthread_mutex_unlock(&p_proxy_dev->queue_mutex);
          pthread_mutex_unlock(&proxy.clnt_mutex);
       }
-      else if (res < 0)
-      {
-         /* XXX abort upon error (esp. EBUSY) */
-         perror("VBI read");
-      }
-
-      pthread_mutex_lock(&p_proxy_dev->queue_mutex);
-
-      if (p_buf->ref_count > 0)
-         vbi_proxy_queue_add_tail(&p_proxy_dev->p_sliced, p_buf);
       else
+      {
+         if (res < 0)
+         {
+            /* XXX abort upon error (esp. EBUSY) */
+            perror("VBI read");
+         }
+
+         pthread_mutex_lock(&p_proxy_dev->queue_mutex);
+
          vbi_proxy_queue_add_free(p_proxy_dev, p_buf);
 
-      p_proxy_dev->p_tmp_buf = NULL;
-      pthread_mutex_unlock(&p_proxy_dev->queue_mutex);
+         p_proxy_dev->p_tmp_buf = NULL;
+         pthread_mutex_unlock(&p_proxy_dev->queue_mutex);
+      }
    }
    else
       dprintf(DBG_MSG, "forward_data: queue overflow\n");
